@@ -17,11 +17,12 @@ def run(tier, seed):
     recs = run_bounded(rep, "C13", [("modules-collide", {"modules": True}, "modules", 700 if q else 15000),
                                     ("modules-labels", {"modules": True, "collide": False}, "modules-rl", 400 if q else 8000),
                                     ("modules-sibling", {"modules": True, "sibling_tail": True}, "modules", 300 if q else 6000)],
-                       budget_s=60 if q else 1200, seed=seed, want=["C13", "C01", "C02"], clause="compiler.compile_code#modules_behave_like_merged_source")
+                       budget_s=60 if q else 1200, seed=seed, want=["C13", "C01", "C02", "C04"], clause="compiler.compile_code#modules_behave_like_merged_source")
     # failures of the simulation postcondition on module programs are failures of this property
-    bad = [r for r in recs if r.get("fails", {}).get("C02") or r.get("fails", {}).get("C01")]
+    # ... and so is a register shared by two live values across module scopes (allocation validator, bounded/liveness.py)
+    bad = [r for r in recs if r.get("fails", {}).get("C02") or r.get("fails", {}).get("C01") or r.get("fails", {}).get("C04")]
     for r in sorted(bad, key=lambda r: r["seed"])[:4]:
-        f = (r["fails"].get("C01") or r["fails"].get("C02"))[0]
+        f = (r["fails"].get("C01") or r["fails"].get("C02") or r["fails"].get("C04"))[0]
         rep.add(Ob(f"compiler.compile_code#modules_behave_like_merged_source[seed={r['seed']}]", VIOLATED, kind="bounded", backend="native", target="compiler.compile_code",
                    witness={"sources": f["sources"], "options": f["options"], "seed": r["seed"]}, replayed=True, detail={"observed": f["what"], "emitted_code": f.get("code")}))
     if bad:
